@@ -11,12 +11,12 @@ from common import *
 import model, findings as F
 from props import base
 
-PROPS_MODULES = ["ShexerModel.Props.C07", "ShexerModel.Props.GenStrCorners", "ShexerModel.Props.GenStrLiteral", "ShexerModel.Props.GenStrUnprefix", "ShexerModel.Props.GenStrTtlScan", "ShexerModel.Props.GenStrTune2", "ShexerModel.Props.GenStrTtlTok", "ShexerModel.Props.GenTtlReader"]
-DEPS = ["S.remove_corners", "S.decide_literal_type"] + ["S." + x for x in ('ttl_remove_comments_if_needed', 'ttl_find_next_blank', 'ttl_count_prior_backslashes', 'ttl_find_next_unescaped_quotes', 'ttl_find_next_quoted_literal_ending', 'ttl_expand_prefixed_datatype_if_needed', 'ttl_parse_cornered_element', 'ttl_next_line_token', 'ttl_clean_line', 'ttl_is_num_literal', 'ttl_parse_elem', 'parse_literal', 'parse_unquoted_literal', 'tune_subj', 'tune_prop', 'tune_token')]
+PROPS_MODULES = ["ShexerModel.Props.C07", "ShexerModel.Props.GenStrCorners", "ShexerModel.Props.GenStrLiteral", "ShexerModel.Props.GenStrUnprefix", "ShexerModel.Props.GenStrTtlScan", "ShexerModel.Props.GenStrTune2", "ShexerModel.Props.GenStrTtlTok", "ShexerModel.Props.GenTtlReader", "ShexerModel.Props.GenTtlDoc"]
+DEPS = ["S.remove_corners", "S.decide_literal_type"] + ["S." + x for x in ('ttl_remove_comments_if_needed', 'ttl_find_next_blank', 'ttl_count_prior_backslashes', 'ttl_find_next_unescaped_quotes', 'ttl_find_next_quoted_literal_ending', 'ttl_expand_prefixed_datatype_if_needed', 'ttl_parse_cornered_element', 'ttl_next_line_token', 'ttl_clean_line', 'ttl_is_num_literal', 'ttl_parse_elem', 'ttl_process_prefix_line', 'ttl_process_base_line', 'ttl_check_directive_alone_in_its_line', 'parse_literal', 'parse_unquoted_literal', 'tune_subj', 'tune_prop', 'tune_token')]
 replay = base.replay
 LANG_STRING = 'http://www.w3.org/1999/02/22-rdf-syntax-ns#langString'
 PFX = {'': 'http://empty.example.org/', 'e': 'http://short.example.com/', 'ex': 'http://example.org/', 'ext': 'http://ext.example.org/ns#', 'xsd': XSD,
-       'dtp': 'http://dt.example.com/types#', 'rdf': 'http://www.w3.org/1999/02/22-rdf-syntax-ns#', 'rdfs': 'http://www.w3.org/2000/01/rdf-schema#'}
+       'dtp': 'http://dt.example.com/types#', 'dt': 'http://units.example.org/datatypes#', 'geo': 'http://www.w3.org/2003/01/geo/wgs84_pos#', 'rdf': 'http://www.w3.org/1999/02/22-rdf-syntax-ns#', 'rdfs': 'http://www.w3.org/2000/01/rdf-schema#'}
 BASE = 'http://base.example.net/b/'
 CONTENT_ATOMS = ['\\"', '\\\\', '#', ' #', ';', ',', '.', ' .', ' ; ', '@', '^^', 'a', ' ', '<', '>', 'é', 'ex:x', '\\n', "'", '\u2028', '\x0c', '\u0085']      # the last three: line boundaries for str.splitlines(), ordinary characters for Turtle
 
@@ -34,7 +34,8 @@ def gen_groups(rng, small=False):
     def node():
         r = rng.random()
         if r < 0.2: return ('B', 'b%d' % rng.randint(0, 3))
-        if r < 0.35: return ('I', rng.choice([BASE + 'r1', BASE + 'dir/r2', BASE + 'r#f', BASE + '#frag', 'http://base.example.net/top', 'urn:isbn:123']))
+        if r < 0.35: return ('I', rng.choice([BASE + 'r1', BASE + 'dir/r2', BASE + 'r#f', BASE + '#frag', 'http://base.example.net/top', 'urn:isbn:123',
+                                              BASE + 'go/?to=http://other.org/page', BASE + 'doc/1#src=ftp://files.example.org/x']))      # relative references that embed a URL
         if r < 0.5: return ('I', 'http://other.org/o%d' % rng.randint(0, 3))
         return ('I', PFX[rng.choice(['ex', 'ex', 'ex', 'e', 'ext', 'rdfs', ''])] + 'n%d' % rng.randint(0, 5))
     def lit():
@@ -43,7 +44,7 @@ def gen_groups(rng, small=False):
         if r < 0.25: sf = ('none',)
         elif r < 0.4: sf = ('lang', rng.choice(['en', 'en-GB']))
         elif r < 0.55: sf = ('dt', XSD + rng.choice(['integer', 'date', 'string']))
-        elif r < 0.7: sf = ('dt', PFX['dtp'] + 'temp')
+        elif r < 0.7: sf = ('dt', rng.choice([PFX['dtp'] + 'temp', PFX['dt'] + 'metre', PFX['geo'] + 'degrees']))      # `dt:` / `geo:` as the DOCUMENT binds them
         elif r < 0.78: sf = ('dt', 'http://other.org/dt@x')
         elif r < 0.85: sf = ('dt', BASE + rng.choice(['units/celsius', 'squareMetre', 'dt#frag']))      # written relative to @base when there is one
         else: return ('N', rng.choice(['', '', '-', '+']) + str(rng.randint(0, 99)))          # untyped integer: [+-]?[0-9]+
@@ -386,7 +387,7 @@ def run(ctx):
             else:
                 viol.append({"what": "outside the dialect (%s): the reader neither raises nor yields the triples of the document" % name,
                              "doc": text, "got": r[1], "rdflib": ref})
-    base.fragment_s_tie(ctx, dis, stats, ['remove_corners', 'decide_literal_type', 'unprefixize_uri_mandatory', 'unprefixize_uri_if_possible', 'ttl_remove_comments_if_needed', 'ttl_find_next_blank', 'ttl_count_prior_backslashes', 'ttl_find_next_unescaped_quotes', 'ttl_find_next_quoted_literal_ending', 'ttl_expand_prefixed_datatype_if_needed', 'ttl_parse_cornered_element', 'ttl_next_line_token', 'ttl_clean_line', 'ttl_is_num_literal', 'ttl_parse_elem', 'parse_literal', 'parse_unquoted_literal', 'tune_subj', 'tune_prop', 'tune_token'])
+    base.fragment_s_tie(ctx, dis, stats, ['remove_corners', 'decide_literal_type', 'unprefixize_uri_mandatory', 'unprefixize_uri_if_possible', 'ttl_remove_comments_if_needed', 'ttl_find_next_blank', 'ttl_count_prior_backslashes', 'ttl_find_next_unescaped_quotes', 'ttl_find_next_quoted_literal_ending', 'ttl_expand_prefixed_datatype_if_needed', 'ttl_parse_cornered_element', 'ttl_next_line_token', 'ttl_clean_line', 'ttl_is_num_literal', 'ttl_parse_elem', 'ttl_process_prefix_line', 'ttl_process_base_line', 'ttl_check_directive_alone_in_its_line', 'parse_literal', 'parse_unquoted_literal', 'tune_subj', 'tune_prop', 'tune_token'])
     return base.std_result(ctx, [d[0] for d in docs], viol, dis, base.known_lines(kf, hit), stats, nontriv, [],
                            "documents rendered from abstract statement groups (';' and ',' abbreviations, 'a' vs rdf:type, prefixed / <absolute> / "
                            "<relative-to-@base> IRIs, blank nodes, literals with escapes and '#', ';', ',', '.' inside, language tags, datatypes as <IRI> / "
